@@ -516,6 +516,86 @@ def build(mix, gridv, cfg):
                 cl.append([rotation(t + 4 * f + 5 * cfg)(x) for x in tetramer(l1, l2, l3, v1[p1[t]], v2[p2[t]], ph)])
             clusters_per_frame.append(cl)
         order = None
+    elif mix in ("xt-AB", "xt-BA"):
+        # bonded molecules + CROSS-TYPE pair interaction A-B declared as <type1>A<type2>B (xt-AB) or <type1>B<type2>A (xt-BA),
+        # plus A-A.  Molecules in both bead-id orders w.r.t. the type order: dimers a(A)-b(B) and b(B)-a(A), trimers A-B-A and
+        # B-A-B (bonds + angle => 1-2 and 1-3 pairs excluded).  All bond lengths (and part of the 1-3 distances) lie INSIDE the
+        # pair cut-off, so whether the exclusion is honoured decides the pair set.  Pair samples come from single-bead solvent
+        # molecules SA/SB placed next to the molecule beads and from SA triangles.
+        nd, ntr, ntri = 4, 4, 6          # per orientation: dimers, trimers ; solvent triangles
+        S.molecules = [("DAB", [("a", "A"), ("b", "B")], nd), ("DBA", [("b", "B"), ("a", "A")], nd),
+                       ("ABA", [("a", "A"), ("b", "B"), ("c", "A")], ntr), ("BAB", [("a", "B"), ("b", "A"), ("c", "B")], ntr),
+                       ("SA", [("s", "A")], 2 * nd + ntr + 2 * ntr + 3 * ntri), ("SB", [("s", "B")], 2 * nd + 2 * ntr + ntr)]
+        S.bonded = [("bond", "bond", ["DAB:a DAB:b", "DBA:b DBA:a", "ABA:a ABA:b", "ABA:b ABA:c", "BAB:a BAB:b", "BAB:b BAB:c"]),
+                    ("angle", "angle", ["ABA:a ABA:b ABA:c", "BAB:a BAB:b BAB:c"])]
+        S.nb = [("A-B", "A", "B") if mix == "xt-AB" else ("A-B", "B", "A"), ("A-A", "A", "A")]
+        S.grid["bond"], S.kind["bond"] = g("bond"), "bond"
+        S.grid["angle"], S.kind["angle"] = GRIDS_D["ang2"][gridv], "angle"
+        S.grid["A-B"], S.kind["A-B"] = g("nb"), "nb"
+        S.grid["A-A"], S.kind["A-A"] = g("nb"), "nb"
+        S.excluded_inside_cutoff_expected = 2 * nd + 4 * ntr      # every bond of every molecule
+        blo, bhi, _ = fl(g("bond"))
+        alo, ahi, _ = fl(GRIDS_D["ang2"][gridv])
+        nlo, nhi, _ = fl(g("nb"))
+        nbond, nang, ncross = 2 * nd + 4 * ntr, 2 * ntr, 4 * nd + 6 * ntr
+        for f in range(NFRAMES):
+            vb = lattice_values(blo, bhi, nbond, f, cfg)
+            va = lattice_values(alo, ahi, nang, f, cfg + 1)
+            vx = lattice_values(nlo, nhi, ncross, f, cfg + 2)
+            vaa = lattice_values(nlo, nhi, 3 * ntri, f, cfg + 3)
+            px, paa = perm(ncross, f, 7), perm(3 * ntri, f, 5)
+            # explicit bond / angle assignment: the A-B-A trimer with the smallest angle gets two short bonds, so that in every
+            # frame at least one excluded 1-3 (A-A) pair lies inside the A-A cut-off
+            TB = [1, 4, 7, 22, 10, 19, 13, 16, 2, 23, 5, 20, 8, 17, 11, 14]     # bond value indices of the trimer slots
+            DB = [0, 3, 6, 9, 12, 15, 18, 21]                                    # ... of the dimers
+            assert nbond == 24 and nang == 8
+            ix = 0
+            cl = []
+            for t in range(2 * nd):          # dimers: [first bead, second bead, solvent beyond first, solvent beyond second]
+                l = vb[DB[(t + 3 * f) % 8]]
+                p0, p1 = (0.0, 0.0, 0.0), (l, 0.0, 0.0)
+                s0 = (-vx[px[ix]], 0.0, 0.0); ix += 1
+                s1 = (l + vx[px[ix]], 0.0, 0.0); ix += 1
+                R = rotation(t + 4 * f + 5 * cfg)
+                cl.append([R(x) for x in (p0, p1, s0, s1)])
+            for t in range(2 * ntr):         # trimers: [a, b, c, solvent next to b, solvent beyond a, solvent beyond c]
+                k = 2 * ((t + f) % ntr) if t < ntr else 2 * ((t + f) % ntr) + 1     # A-B-A: even angle indices, B-A-B: odd
+                slot = 0 if k == 0 else 1 + (k - 1 + f) % 7
+                l1, l2, th = vb[TB[2 * slot]], vb[TB[2 * slot + 1]], va[k]
+                a, b, c = trimer(l1, l2, th)
+                ua, uc = mul(a, 1.0 / l1), mul(c, 1.0 / l2)
+                bis = add(ua, uc)
+                bis = mul(bis, 1.0 / norm(bis))
+                s1 = mul(bis, -vx[px[ix]]); ix += 1
+                s2 = add(a, mul(ua, vx[px[ix]])); ix += 1
+                s3 = add(c, mul(uc, vx[px[ix]])); ix += 1
+                R = rotation(t + 4 * f + 5 * cfg + 3)
+                cl.append([R(x) for x in (a, b, c, s1, s2, s3)])
+            for t in range(ntri):            # SA triangles
+                R = rotation(t + 5 * f + 11 * cfg)
+                cl.append([R(x) for x in triangle(vaa[paa[t]], vaa[paa[t + ntri]], vaa[paa[t + 2 * ntri]])])
+            clusters_per_frame.append(cl)
+        # topology order: DAB, DBA, ABA, BAB molecules, then all SA, then all SB single-bead molecules
+        order = []
+        for t in range(2 * nd):
+            order += [(t, 0), (t, 1)]
+        for t in range(2 * ntr):
+            order += [(2 * nd + t, 0), (2 * nd + t, 1), (2 * nd + t, 2)]
+        sa, sb = [], []
+        for t in range(nd):                  # DAB a(A)-b(B): beyond a -> SB, beyond b -> SA
+            sb.append((t, 2)); sa.append((t, 3))
+        for t in range(nd, 2 * nd):          # DBA b(B)-a(A): beyond b -> SA, beyond a -> SB
+            sa.append((t, 2)); sb.append((t, 3))
+        for t in range(ntr):                 # A-B-A: next to b -> SA, beyond the A ends -> SB
+            c_ = 2 * nd + t
+            sa.append((c_, 3)); sb += [(c_, 4), (c_, 5)]
+        for t in range(ntr, 2 * ntr):        # B-A-B: next to a -> SB, beyond the B ends -> SA
+            c_ = 2 * nd + t
+            sb.append((c_, 3)); sa += [(c_, 4), (c_, 5)]
+        for t in range(ntri):
+            c_ = 2 * nd + 2 * ntr + t
+            sa += [(c_, 0), (c_, 1), (c_, 2)]
+        order += sa + sb
     else:
         raise ValueError(mix)
     S.clusters_per_frame = clusters_per_frame
@@ -601,7 +681,7 @@ def forces(S, funcs, angle_as_coded=False):
         n = len(pos)
         F = [[0.0, 0.0, 0.0] for _ in range(n)]
         smp = dict((name, []) for name in S.grid)
-        gap = {}
+        gap, excl_inside = {}, {}
         longest = max([float(S.grid[nme][1]) for (nme, _, _) in S.nb] + [0.0])
 
         def addf(i, g, s):
@@ -641,12 +721,14 @@ def forces(S, funcs, angle_as_coded=False):
                         continue
                     d = min_image(d0, S.box)
                     r = norm(d)
+                    if (i, j) in S.excl and S.mol[i] == S.mol[j]:
+                        if r < gmax - 1e-3:
+                            excl_inside[name] = excl_inside.get(name, 0) + 1   # the exclusion decides the pair set
+                        continue
                     if r >= gmax:
                         assert r > gmax + 2e-5, "pair distance %.7f on the cutoff" % r
-                        if r < longest - 1e-3 and not ((i, j) in S.excl and S.mol[i] == S.mol[j]):
+                        if r < longest - 1e-3:
                             gap[name] = gap.get(name, 0) + 1
-                        continue
-                    if (i, j) in S.excl and S.mol[i] == S.mol[j]:
                         continue
                     assert r > gmin + 1e-4, "pair distance %g below the fit range of %s" % (r, name)
                     smp[name].append(r)
@@ -656,6 +738,10 @@ def forces(S, funcs, angle_as_coded=False):
                     addf(j, u, fv)
         for nme, (lo_, hi_, cnt_) in getattr(S, "gap_pairs_expected", {}).items():
             assert gap.get(nme, 0) >= cnt_, "only %d %s pairs between its cut-off and the longest cut-off" % (gap.get(nme, 0), nme)
+        if hasattr(S, "excluded_inside_cutoff_expected"):
+            assert excl_inside.get("A-B", 0) >= S.excluded_inside_cutoff_expected, \
+                "only %d excluded A-B pairs inside the cut-off" % excl_inside.get("A-B", 0)
+            assert excl_inside.get("A-A", 0) >= 1, "no excluded A-A (1-3) pair inside the cut-off"
         out.append(F)
         samples.append(smp)
     return out, samples
@@ -844,6 +930,8 @@ def run_case(c, exe, verbose=False):
 MIXES = ["nb1", "nb2", "bond", "angle", "dihedral", "bond+angle+nb"]
 # interactions of the same kind with DIFFERENT grids / cut-offs, both orders in the options file
 MIXES_D = ["nb3d-LS", "nb3d-SL", "bond2-LS", "bond2-SL", "angle2-LS", "angle2-SL"]
+# bonded molecules + cross-type pair interaction in both declaration orders (exclusions decide the pair set)
+MIXES_X = ["xt-AB", "xt-BA"]
 
 
 def case_string(c):
@@ -860,9 +948,9 @@ def enumerate_cases(tier):
     thorough = tier == "thorough"
     fpbs = [1, 2, 4] if not thorough else [1, 2, 3, 4]
     cfgs = [0] if not thorough else [0, 1, 2]
-    for mix in MIXES + MIXES_D:
-        has_nb = "nb" in mix
-        reduced = (mix in MIXES_D) and not thorough      # quick: spline functions, triclinic cell, block sizes 1 and 4 only
+    for mix in MIXES + MIXES_D + MIXES_X:
+        has_nb = "nb" in mix or mix in MIXES_X
+        reduced = (mix in MIXES_D + MIXES_X) and not thorough      # quick: spline functions, triclinic cell, block sizes 1 and 4 only
         for cfg in cfgs:
             for func in (("spline",) if reduced else ("line", "spline")):
                 for grid in (0, 1):
@@ -893,7 +981,10 @@ def main():
               "; PLUS interactions of one kind with DIFFERENT (min,max,step) per interaction, each in both orders of the options file "
               "(larger range first / smaller first): three pair interactions A-A (short cut-off), A-B (long), B-B (medium, coarser step) "
               "with A-A and B-B pairs lying between their own and the long cut-off (verified per frame, none within 2e-5 nm of a cut-off), "
-              "two bond groups, two angle groups" +
+              "two bond groups, two angle groups; PLUS bonded molecules with a CROSS-TYPE pair interaction A-B declared in both orders "
+              "(type1,type2 = A,B and B,A) next to A-A: dimers a(A)-b(B) and b(B)-a(A), trimers A-B-A and B-A-B (bonds + angle), all bond "
+              "lengths and part of the 1-3 distances INSIDE the pair cut-off (verified per frame), so that honouring the exclusions decides "
+              "the pair set; pair samples from single-bead solvent molecules" +
               (" (full product as above)" if a.tier == "thorough" else " (spline functions, triclinic cell, frames_per_block {1,4})") +
               "; all over 4-frame lattice configurations in which every frame samples every spline interval >= 2 times (verified). Oracle: "
               "every <name>.force table equals the generating function on the whole output grid within 1e-6 (constrained) / 1e-5 (plain) "
